@@ -296,7 +296,7 @@ func runC05(env *Env, s Scenario) {
 	env.Res.Extra = map[string]string{"emitted": fmt.Sprint(sr.Tr.Emitted())}
 	env.Res.Shape = sessionShape(sc)
 	env.Res.Nontrivial = sc.F.StallAt >= 0 && sr.Tr.StallHit
-	for k, v := range sr.Tr.FaultFired {
+	for k, v := range sr.Tr.Faults() {
 		env.Fault(k, v)
 	}
 	env.Fault("seg", len(sr.Tr.Reads))
